@@ -713,6 +713,14 @@ theorem runsR_ok (ls : List QL) (h : ∀ l ∈ ls, QLOk l) :
 
 /-! ## the dictionary rebuilt from the lines -/
 
+theorem splitC_ne_nil (c : Char) (s acc : Str) : splitC c s acc ≠ [] := by
+  induction s generalizing acc with
+  | nil => simp [splitC]
+  | cons x xs ih =>
+    by_cases hx : x = c
+    · simp [splitC, hx]
+    · simp only [splitC, hx, if_false]; exact ih _
+
 theorem intercalateC_splitC (c : Char) (s : Str) : ∀ acc : Str,
     intercalateC c (splitC c s acc) = acc.reverse ++ s := by
   induction s with
@@ -724,20 +732,12 @@ theorem intercalateC_splitC (c : Char) (s : Str) : ∀ acc : Str,
       simp only [splitC, if_true]
       have := ih []
       cases hsp : splitC x xs [] with
-      | nil => rw [hsp] at this; simp [intercalateC] at this; subst this; simp [intercalateC]
+      | nil => exact absurd hsp (splitC_ne_nil _ _ _)
       | cons y ys =>
         rw [hsp] at this
         simp only [intercalateC, this]; simp
     · simp only [splitC, hx, if_false]
       rw [ih (x :: acc)]; simp
-
-theorem splitC_ne_nil (c : Char) (s acc : Str) : splitC c s acc ≠ [] := by
-  induction s generalizing acc with
-  | nil => simp [splitC]
-  | cons x xs ih =>
-    by_cases hx : x = c
-    · simp [splitC, hx]
-    · simp only [splitC, hx, if_false]; exact ih _
 
 theorem setQual_append_piece (d : List Qual) (k o p : Str) (hd : d.lookup k = none) :
     setQual (d ++ [(k, some o)]) k (some p) = .ok (d ++ [(k, some (o ++ '\n' :: p))]) := by
@@ -750,11 +750,121 @@ theorem setQual_append_piece (d : List Qual) (k o p : Str) (hd : d.lookup k = no
     rw [List.lookup_append, hd]; simp
   unfold setQual
   rw [hl]
-  simp only [List.map_append, List.map_cons, List.map_nil, if_true]
-  congr 2
-  apply map_eq_self'
-  intro q hq
-  have : q.1 ≠ k := fun e => hk (List.mem_map.mpr ⟨q, hq, e⟩)
-  simp [this]
+  have hmap : d.map (fun q => if q.1 = k then (k, some (o ++ '\n' :: p)) else q) = d := by
+    conv => rhs; rw [← List.map_id d]
+    apply List.map_congr_left
+    intro q hq
+    have : q.1 ≠ k := fun e => hk (List.mem_map.mpr ⟨q, hq, e⟩)
+    simp [this]
+  simp only [List.map_append, List.map_cons, List.map_nil, if_true, hmap]
+
+theorem lineFold_append (xs ys : List QL) : ∀ d : List Qual,
+    lineFold d (xs ++ ys) = match lineFold d xs with | .ok d' => lineFold d' ys | .error e => .error e := by
+  induction xs with
+  | nil => intro d; rfl
+  | cons x xs ih =>
+    intro d
+    simp only [List.cons_append, lineFold]
+    cases setQual d x.1 x.2 with
+    | error e => rfl
+    | ok d' => exact ih d'
+
+theorem lineFold_pieces_some (d : List Qual) (k : Str) (hd : d.lookup k = none) (ps : List Str) : ∀ o : Str,
+    lineFold (d ++ [(k, some o)]) (ps.map (fun p => (k, some p))) =
+      .ok (d ++ [(k, some (intercalateC '\n' (o :: ps)))]) := by
+  induction ps with
+  | nil => intro o; simp [lineFold, intercalateC]
+  | cons p ps ih =>
+    intro o
+    simp only [List.map_cons, lineFold, setQual_append_piece d k o p hd]
+    rw [ih (o ++ '\n' :: p)]
+    congr 4
+    cases ps with
+    | nil => simp [intercalateC]
+    | cons p' ps' => simp [intercalateC]
+
+theorem setQual_fresh (d : List Qual) (k : Str) (v : Option Str) (hd : d.lookup k = none) :
+    setQual d k v = .ok (d ++ [(k, v)]) := by
+  unfold setQual; rw [hd]
+
+theorem lineFold_qual (d : List Qual) (q : Qual) (hd : d.lookup q.1 = none) :
+    lineFold d (qlPieces q) = .ok (d ++ [q]) := by
+  obtain ⟨k, v⟩ := q
+  cases v with
+  | none => simp [qlPieces, lineFold, setQual_fresh d k none hd]
+  | some v =>
+    simp only [qlPieces]
+    cases hsp : splitC '\n' v [] with
+    | nil => exact absurd hsp (splitC_ne_nil _ _ _)
+    | cons p0 ps =>
+      simp only [List.map_cons, lineFold, setQual_fresh d k (some p0) hd]
+      rw [lineFold_pieces_some d k hd ps p0, ← hsp, intercalateC_splitC]
+      simp
+
+theorem lineFold_quals (quals : List Qual) : ∀ d : List Qual,
+    (d.map (·.1) ++ quals.map (·.1)).Nodup → lineFold d (quals.flatMap qlPieces) = .ok (d ++ quals) := by
+  induction quals with
+  | nil => intro d _; simp [lineFold]
+  | cons q qs ih =>
+    intro d hnd
+    have hq : q.1 ∉ d.map (·.1) := by
+      intro hm
+      rw [List.nodup_append] at hnd
+      exact hnd.2.2 _ hm _ (by simp) rfl
+    rw [List.flatMap_cons, lineFold_append, lineFold_qual d q (lookup_none_of_not_mem d q.1 hq)]
+    simp only
+    rw [ih (d ++ [q]) (by simpa [List.nodup_append, List.nodup_cons, and_assoc, and_comm, and_left_comm, or_imp, forall_and] using hnd)]
+    simp
+
+theorem splitC_sub (c : Char) (s : Str) : ∀ acc : Str, ∀ p ∈ splitC c s acc, ∀ x ∈ p, x ∈ s ∨ x ∈ acc := by
+  induction s with
+  | nil => intro acc p hp x hx; simp [splitC] at hp; subst hp; right; simpa using hx
+  | cons y ys ih =>
+    intro acc p hp x hx
+    by_cases hy : y = c
+    · simp only [splitC, hy, if_true, List.mem_cons] at hp
+      rcases hp with rfl | hp
+      · right; simpa using hx
+      · rcases ih [] p hp x hx with h | h
+        · left; simp [h]
+        · simp at h
+    · simp only [splitC, hy, if_false] at hp
+      rcases ih (y :: acc) p hp x hx with h | h
+      · left; simp [h]
+      · simp only [List.mem_cons] at h
+        rcases h with rfl | h
+        · left; simp
+        · right; exact h
+
+/-- **qualifier text round trip** (value level): the text `get_annotation` accumulates for a feature
+written by `set_annotation` is parsed back into the same location string and the same qualifiers. -/
+theorem qualifiers_roundtrip (loc : Str) (hloc : LocStrOk loc) (quals : List Qual)
+    (hk : ∀ q ∈ quals, QKeyOk q.1) (hv : ∀ q ∈ quals, ∀ v, q.2 = some v → QValOk v)
+    (hnd : (quals.map (·.1)).Nodup) :
+    parseFeatVal (featValue loc quals) = .ok (loc, quals) := by
+  have hls : ∀ l ∈ quals.flatMap qlPieces, QLOk l := by
+    intro l hl
+    obtain ⟨q, hq, hlq⟩ := List.mem_flatMap.mp hl
+    obtain ⟨k, v⟩ := q
+    cases v with
+    | none =>
+      simp only [qlPieces, List.mem_singleton] at hlq
+      subst hlq
+      exact ⟨hk _ hq, fun p hp => by cases hp⟩
+    | some v =>
+      simp only [qlPieces, List.mem_map] at hlq
+      obtain ⟨p, hp, rfl⟩ := hlq
+      refine ⟨hk (k, some v) hq, ?_⟩
+      intro p' hp' hmem
+      injection hp' with hp'; subst hp'
+      rcases splitC_sub '\n' v [] p hp _ hmem with h | h
+      · exact hv _ hq v rfl h
+      · simp at h
+  obtain ⟨hr1, hr2⟩ := runsR_ok _ hls
+  unfold parseFeatVal
+  rw [featValue_eq, bodyText_runs, List.append_assoc, featParts_value loc hloc _ hr1 _ hr2]
+  simp only
+  rw [partsGo_runs _ hr1 _ hr2, runsFold_lines, lineFold_quals quals [] (by simpa using hnd)]
+  simp
 
 end BiotiteModel.C12
